@@ -310,3 +310,15 @@ def repayload_for_print(env, t, walk):
         return ("struct", out)
 
     return S.value_to_walk(env, t, tr(t, value))
+
+
+def layout_of(envs):
+    """spec/Layout.tla + Schema.tla evaluated by TLC on given environments.
+    Returns (list of {"legal": bool, "lay": [...]}, stats)."""
+    path = _write_given([{"env": e} for e in envs])
+    res = run_tlc("LayoutGiven", {}, spec="LSpec", prefix=("LAY",), env={"GIVEN_FILE": path}, workers=1)
+    out = [None] * len(envs)
+    for tag, body in res.lines:
+        v = json.loads(body)
+        out[v["gid"] - 1] = v
+    return out, res.stats
